@@ -66,7 +66,8 @@ Inductive wop :=
 | SolveOp.
 
 (* the auto-raised name of a pin (maps_all_pins uses the pin itself as its external name) *)
-Definition auto_name (x : spin) : nat := 1000 + 100 * fst x + snd x.
+(* structures 2j and 2j+1 carry the same pin names (two instances of one block) *)
+Definition auto_name (x : spin) : nat := 1000 + 100 * (fst x / 2) + snd x.
 
 (* Structure.add_conn *)
 Definition add_conn (t : sstruct) (x y : spin) : result sstruct :=
